@@ -10,6 +10,20 @@ from c05 import ro_positions, after_all_ok, before_all
 from c04 import ident_positions
 
 
+def closure_args(P, b, t):
+    """bodies of the closures passed as arguments of call t"""
+    out = []
+    for a in t['args']:
+        if not is_local_op(a):
+            continue
+        for org in origins(b, a):
+            if org[0] not in ('param', 'const', 'place') and org[1].get('k') == 'assign' and org[1]['rv']['k'] == 'agg' and org[1]['rv'].get('ak') == 'closure':
+                cb = P.bodies.get(org[1]['rv'].get('fn'))
+                if cb is not None:
+                    out.append(cb)
+    return out
+
+
 def all_ok_paths_pass(b, start, through):
     exits = E.ok_exit_positions(b)
     thr = set(through) | E.loops_containing(b, through)
@@ -66,6 +80,15 @@ def run(ctx):
         # prefix guard dominates the rewrite
         sp = [pos for pos, t in si.iter_calls() if call_matches(t, r'str>::strip_prefix') and len(t['args']) > 1 and const_val(t['args'][1]) is None]
         sw = [pos for pos, t in si.iter_calls() if call_matches(t, r'str>::starts_with')]
+        # the selection may be the closure of an iterator chain that runs before the rewriting loop (`keys().filter_map(|k| k.strip_prefix(old)..)`):
+        # the adaptor call then stands for the test
+        for pos, t in si.iter_calls():
+            for cb in closure_args(P, si, t):
+                inner = [cb] + P.closures_of(cb)
+                if any(call_matches(t2, r'str>::strip_prefix') and len(t2['args']) > 1 and const_val(t2['args'][1]) is None for x in inner for q2, t2 in x.iter_calls()):
+                    sp.append(pos)
+                if any(call_matches(t2, r'str>::starts_with') for x in inner for q2, t2 in x.iter_calls()):
+                    sw.append(pos)
         C.check(bool(rw) and bool(dominated_by(si, rw[0], sp)) and bool(sw), 'C06-DEV-others-untouched', 'set_item_name|rewrite-under-prefix-test', 'referrer text is rewritten outside the old-prefix test: references to other elements could be changed',
                 sample={'fn': 'set_item_name', 'guard': 'strip_prefix(old_path) is Some and remainder is empty or starts with /'})
         # the text written is the new key
@@ -144,12 +167,23 @@ def run(ctx):
         b = P.get(fn)
         bad = [pos for x in P.with_closures(b) for pos, t in x.iter_calls() if call_matches(t, r'str>::(replace|replacen)$|String::replace_range$')]
         C.check(not bad, 'C06-MUST-splice', fn + '|no-substring-replacement', '%s rewrites a path with str::replace: every occurrence of the old path text inside the reference is substituted, not only the leading prefix' % fn, b.where(bad[0]) if bad else '')
-        fm = [pos for pos, t in b.iter_calls() if call_matches(t, r'fmt::format$|alloc::fmt::format$')]
         okf = False
-        for pos in fm:
-            nm, cs, _ = all_sources(b, b.blocks[pos[0]]['term']['args'][0], depth=20)
-            if any(c.endswith('strip_prefix') for c in cs):
-                okf = True
+        for x in P.with_closures(b):
+            fm = [pos for pos, t in x.iter_calls() if call_matches(t, r'fmt::format$|alloc::fmt::format$')]
+            for pos in fm:
+                nm, cs, _ = all_sources(x, x.blocks[pos[0]]['term']['args'][0], depth=20)
+                if any(c.endswith('strip_prefix') for c in cs):
+                    okf = True
+            # `path.strip_prefix(old).map(|rest| format!("{new}{rest}"))`: the text is formatted inside a closure applied to the strip result
+            for pos, t in x.iter_calls():
+                if call_matches(t, r'Option::<T>::(map|and_then|map_or|map_or_else)$|bool::then$|<impl bool>::then$') and t['args']:
+                    from flow import deep_sources as _dsx
+                    rc = _dsx(x, t['args'][0], depth=12)[1] if is_local_op(t['args'][0]) else set()
+                    in_strip_closure = x.kind == 'Closure' and any(call_matches(t2, r'str>::strip_prefix') for q2, t2 in x.iter_calls())
+                    if any((c or '').endswith('strip_prefix') for c in rc) or in_strip_closure:
+                        for cb in closure_args(P, x, t):
+                            if any(call_matches(t2, r'fmt::format$|alloc::fmt::format$') for y in [cb] + P.closures_of(cb) for q2, t2 in y.iter_calls()):
+                                okf = True
         C.check(okf, 'C06-MUST-splice', fn + '|text-built-from-stripped-remainder', '%s does not build the new reference text from the remainder returned by strip_prefix(old prefix)' % fn, '%s:%d' % (b.file, b.line),
                 sample={'fn': fn, 'text': 'format!("{new_prefix}{remainder}")'})
     return C.finish('Ordered maintenance obligations on the rename and the two move paths, each a dominance / all-Ok-paths query on MIR. '
